@@ -18,6 +18,7 @@ META = dict(
     required_hits=["path_vs_walker", "structural_predicates", "matched_path", "nf_default"],
     max_inconclusive_frac=0.0,
 )
+META["level_text"] += ' The origin of a live atlas is re-pointed and the same target queried again.'
 
 
 class Named(float):
